@@ -177,6 +177,7 @@ theorem stmt_lookup_unchanged (sc : Schema) (cfg : Cfg) (t : Table) (args : Args
   | insert rows =>
     obtain ⟨rfl, rfl⟩ := stmtPhase1_insert sc cfg t args rows t' item keys hu h
     exact lookup_insert sc t _ k hk
+  | failing s => simp [stmtPhase1] at h
 
 /-- a whole local transaction: a key outside the lock keys is looked up as before -/
 theorem local_lookup_unchanged (sc : Schema) (cfg : Cfg) : ∀ (ltx : LocalTx) (t t' : Table) (b : Branch),
